@@ -2,6 +2,7 @@ import F3.Gen.Core
 import F3.Model.Poll
 import F3.Spec.Poll
 import F3.Proofs.Poll
+import F3.Proofs.PollLoop
 /-!
 # C20 — certificate polling adapts its cadence to certificate production
 
@@ -12,7 +13,7 @@ repackage them). The glue of one loop iteration and the value returned by `poll`
 `F3.Poll`, tied to the code by the `h_poll` correspondence.
 -/
 namespace F3.Props.C20
-open F3.Gen F3.GoInt F3.Poll F3.Spec.Poll F3.Proofs.Poll
+open F3.Gen F3.GoInt F3.Poll F3.Spec.Poll F3.Proofs.Poll F3.Proofs.PollLoop
 
 set_option linter.unusedSimpArgs false
 set_option linter.unusedVariables false
@@ -368,11 +369,43 @@ theorem no_overflow (s : PState) (p : Int) (h : PInv s) (hmx : s.maxI ≤ 2 ^ 58
 
 /-- Full closed-loop claim of the property ("settles at the production interval instead of
 collapsing to the minimum or drifting to the maximum"): for a production period inside the
-configured range, from some poll on every wait stays within a factor two of the period. NOT proved
-here (see `settles_partial`). Executable validation (model: `settlesWithin` on random settings;
-implementation: the `loop` lines of `h_poll`) shows the waits hovering at the period with isolated
-excursions beyond a factor two as late as poll ~800 (the explore distance doubles at every isolated
-poll without progress until the next change of direction), so `N` cannot be small. -/
+configured range, from some poll on every wait stays within a factor two of the period.
+
+STATUS: neither proved nor refuted for all settings; everything below the line "Closed loop against
+the steady producer" is proved for ALL settings and says how far a theorem goes.
+
+* What would refute it. For fixed settings the loop state (interval, explore distance, direction,
+  back-off, arrival phase) lives in a finite space, so every run is eventually periodic and the
+  statement holds for a setting iff the cycle the run ends in has only in-band waits. Searched:
+  ALL loop states (reachable or not) of 11 small settings (e.g. 100/·/400 with period 200,
+  100/·/1003 with 251, 300/·/1400 with 700) and 4.9·10⁶ random settings from the start state. Every
+  cycle found is in band: the fixed point interval = period (two runs in three for small random
+  settings; `settles_if_period_hit` proves the statement for every such run), or a cycle whose
+  interval stays closer to the period than 8·max(1, min/100). No counterexample exists in that range.
+* What is proved. Progress is truthful (`producer_truthful`), so every adjustment points toward the
+  period and overshoots by less than the explore distance (`closed_loop_moves_toward_period`); away
+  from the period the loop cannot stall (`no_collapse`, `no_drift`, with explicit poll counts) and the
+  interval comes back to the period again and again, so that `lim inf interval ≤ period ≤ lim sup
+  interval` on every run (`interval_returns_to_period`, `cadence_straddles_period`); the period, once
+  hit, is held for ever (`closed_loop_holds_period`); the back-off never sleeps through
+  a period (`closed_loop_wait_bound`); a normal change of direction needs at most two adjustments
+  and contracts the explore distance to at most 2/3 (`search_turn_contracts`); and near the period
+  the band `[P/2, 3P/2]` is absorbing as long as no exceptional configuration (next item) occurs
+  (`band_absorbing_unless_exceptional`, `settles_unless_exceptional`).
+* Why the proof does not close. In the exceptional configuration (overshoot `e-1`, explore distance
+  `e ≡ 2 mod 3`) a change of direction multiplies overshoot and explore distance by 4/3
+  (`search_overshoot_can_grow`, for every size), and this repeats as often as 3 divides `e-8`.
+  Example (non-vacuity section): period 400, interval 312, explore distance 89 — well inside the
+  band — reaches interval 137 < period/2 four turns later; in the closed loop that wait is poll 1317
+  (`#eval (closedLoop 400 0 1318 ⟨100,1000,0,89,312,false⟩ 4324 11)[1317]?`). So no neighbourhood of
+  the period is absorbing, `N` is not bounded by any function of the distance to the period, and
+  there is no scale-free potential function. On these configurations the explore distance follows
+  the Collatz-like map `e ↦ 4(e-2)/3` (`e ≡ 2`), `e ↦ ⌊2e/9⌋` (`e ≡ 0`), stop (`e ≡ 1 mod 3`); a
+  proof for all settings has to exclude cycles of it other than `{8}` (none below 10⁹ by
+  computation), which is out of reach of the methods used here.
+* Executable validation (model: `settlesWithin` on random settings; implementation: the `loop`
+  lines of `h_poll`) shows the waits hovering at the period with isolated excursions beyond a factor
+  two as late as poll ~800 — the mechanism above. -/
 def SettlesStatement : Prop :=
   ∀ (mn ini mx period phase : Int), 100 ≤ mn → mn ≤ ini → ini ≤ mx → 2 * mn ≤ period → 2 * period ≤ mx →
     0 ≤ phase → phase < period →
@@ -385,7 +418,9 @@ and (above the minimum) strictly shorten the interval; (3) no certificate never 
 doubles it up to the cap; (4) the interval never leaves `[min,max]`, so it can neither collapse
 below the minimum nor drift above the maximum; (5) each change of direction divides the search step
 by three. Missing for `SettlesStatement`: the global argument that the alternating search converges
-for every phase/period (it depends on the arrival phase relative to the poll times). -/
+for every phase/period (it depends on the arrival phase relative to the poll times). The section
+"Closed loop against the steady producer" below proves what can be said about that global argument
+for all settings, and the doc-comment of `SettlesStatement` says why it does not close. -/
 theorem settles_partial (s : PState) (h : PInv s) (hb : s.backoff = 0) :
     (∀ n, runPredictor s (List.replicate n 1) = (List.replicate n s.interval, s)) ∧
     (∀ p, 2 ≤ p → (update s p).2.interval ≤ s.interval) ∧
@@ -412,6 +447,338 @@ theorem settles_partial (s : PState) (h : PInv s) (hb : s.backoff = 0) :
     exact ⟨h3, h4⟩
   · intro p hp hdir
     exact (predictor_direction_change_contracts s p h hb hp hdir).2
+
+/-! ## Closed loop against the steady producer: what holds for ALL settings
+
+Notation of this section (definitions in `F3/Proofs/PollLoop.lean`): `LState` packs the loop state
+between two polls (predictor, time of the next poll, certificates seen so far), `loopIter P ph k c`
+is the state after `k` polls (`closed_loop_split` ties it to `closedLoop`), and
+`Synced P ph s t seen` is the loop invariant: the certificates seen are those produced up to an
+anchor time `t0 ≥ phase - period`, and the next poll is one interval (in back-off: one back-off)
+after the anchor. -/
+
+/-- **The producer answers truthfully.** If `p` new certificates are found after a wait `W ≥ 0` that
+started not earlier than one period before the first certificate, then `p - 1 < W/P < p + 1`. Hence
+nothing found ⇒ the wait was shorter than the period, two or more found ⇒ it was longer, three or
+more ⇒ longer than two periods; and a wait of exactly one period always finds exactly one. -/
+theorem producer_truthful (P ph t0 W : Int) (hP : 0 < P) (h0 : ph - P ≤ t0) (hW : 0 ≤ W) :
+    let p := produced P ph (t0 + W) - produced P ph t0
+    P * p < W + P ∧ W < P * (p + 1) ∧ 0 ≤ p ∧ (p = 0 → W < P) ∧ (2 ≤ p → P < W) ∧
+    (3 ≤ p → 2 * P < W) ∧ (W = P → p = 1) := by
+  intro p
+  have h := produced_diff P ph t0 W hP h0 hW
+  have t := truthful P ph t0 W hP h0 hW
+  refine ⟨h.1, h.2, t.1, t.2.1, t.2.2.1, t.2.2.2.1, ?_⟩
+  intro hw
+  have a := t.2.2.2.2.2.1 (by omega)
+  have b := t.2.2.2.2.2.2.1 (by omega)
+  show produced P ph (t0 + W) - produced P ph t0 = 1
+  omega
+
+/-- `loopIter` is the state of `closedLoop` after `k` polls: the run splits there, and the `j`-th
+wait is what `update` returns in the `j`-th state for the progress found at its poll time. -/
+theorem closed_loop_split (P ph : Int) (k n : Nat) (s : PState) (t seen : Int) :
+    closedLoop P ph (k + n) s t seen =
+      closedLoop P ph k s t seen ++
+        closedLoop P ph n (loopIter P ph k ⟨s, t, seen⟩).s (loopIter P ph k ⟨s, t, seen⟩).t
+          (loopIter P ph k ⟨s, t, seen⟩).seen ∧
+    ∀ j, j < k → (closedLoop P ph k s t seen)[j]? =
+      some (update (loopIter P ph j ⟨s, t, seen⟩).s
+        (produced P ph (loopIter P ph j ⟨s, t, seen⟩).t - (loopIter P ph j ⟨s, t, seen⟩).seen)).1 :=
+  ⟨loopOf_add P ph k n ⟨s, t, seen⟩, fun j hj => loopOf_get P ph k j ⟨s, t, seen⟩ hj⟩
+
+/-- **Loop invariant.** From a synchronised state with a sane predictor, every later state is
+synchronised with a sane predictor (same `min`, `max`) — for every period `0 < P ≤ max`, phase, and
+number of polls. -/
+theorem closed_loop_invariant (P ph : Int) (s : PState) (t seen : Int) (k : Nat) (hP : 0 < P)
+    (hI : PInv s) (hmx : P ≤ s.maxI) (hS : Synced P ph s t seen) :
+    PInv (loopIter P ph k ⟨s, t, seen⟩).s ∧
+    (loopIter P ph k ⟨s, t, seen⟩).s.minI = s.minI ∧ (loopIter P ph k ⟨s, t, seen⟩).s.maxI = s.maxI ∧
+    Synced P ph (loopIter P ph k ⟨s, t, seen⟩).s (loopIter P ph k ⟨s, t, seen⟩).t
+      (loopIter P ph k ⟨s, t, seen⟩).seen :=
+  synced_iter P ph hP k ⟨s, t, seen⟩ hI hmx hS
+
+/-- …and the run of `SettlesStatement` (fresh predictor, first poll after the initial interval,
+nothing seen) is synchronised from its first poll on. -/
+theorem closed_loop_invariant_from_start (mn ini mx P ph : Int) (k : Nat) (h0 : 0 < mn) (h1 : mn ≤ ini)
+    (h2 : ini ≤ mx) (hP : 0 < P) (hmx : P ≤ mx) (hph0 : 0 ≤ ph) (hph : ph < P) :
+    PInv (loopIter P ph (k + 1) ⟨PState.init mn ini mx, ini, 0⟩).s ∧
+    (loopIter P ph (k + 1) ⟨PState.init mn ini mx, ini, 0⟩).s.minI = mn ∧
+    (loopIter P ph (k + 1) ⟨PState.init mn ini mx, ini, 0⟩).s.maxI = mx ∧
+    Synced P ph (loopIter P ph (k + 1) ⟨PState.init mn ini mx, ini, 0⟩).s
+      (loopIter P ph (k + 1) ⟨PState.init mn ini mx, ini, 0⟩).t
+      (loopIter P ph (k + 1) ⟨PState.init mn ini mx, ini, 0⟩).seen :=
+  start_iter mn ini mx P ph h0 h1 h2 hP hmx hph0 hph k
+
+/-- **Every wait is the predicted interval or shorter than the period.** In a synchronised state the
+progress found is never negative, and the wait returned is either the (new) interval or — after a
+poll without progress — the old interval / the back-off, which then is shorter than the production
+period: the doubling back-off never sleeps through a whole period. -/
+theorem closed_loop_wait_bound (P ph : Int) (s : PState) (t seen : Int) (hP : 0 < P) (hI : PInv s)
+    (hmx : P ≤ s.maxI) (hS : Synced P ph s t seen) :
+    0 ≤ produced P ph t - seen ∧ s.minI ≤ (update s (produced P ph t - seen)).1 ∧
+    ((update s (produced P ph t - seen)).1 = (update s (produced P ph t - seen)).2.interval ∨
+     ((update s (produced P ph t - seen)).1 < P ∧ produced P ph t - seen = 0)) := by
+  have h := synced_step P ph ⟨s, t, seen⟩ hP hI hmx hS
+  exact ⟨h.1, (predictor_bounds s _ hI).2.1, h.2.2.2.2.2⟩
+
+/-- **Every adjustment moves the interval toward the production period, and overshoots it by less
+than the new explore distance.** Synchronised state outside back-off, `p` the progress the poll
+finds. Interval below the period: `p ∈ {0,1}`, the interval does not shrink and ends below
+`P + explore'`. Interval above the period: `p ≥ 1`, the interval does not grow and (for
+`interval ≤ 2P`) ends above `P - explore'`. Interval equal to the period: `p = 1`. -/
+theorem closed_loop_moves_toward_period (P ph : Int) (s : PState) (t seen : Int) (hP : 0 < P)
+    (hI : PInv s) (hS : Synced P ph s t seen) (hb : s.backoff = 0) :
+    let p := produced P ph t - seen
+    (s.interval < P → (p = 0 ∨ p = 1) ∧ s.interval ≤ (update s p).2.interval ∧
+      (update s p).2.interval < P + (update s p).2.explore) ∧
+    (P < s.interval → 1 ≤ p ∧ (update s p).2.interval ≤ s.interval ∧
+      (s.interval ≤ 2 * P → P < (update s p).2.interval + (update s p).2.explore)) ∧
+    (s.interval = P → p = 1 ∧ update s p = (P, s)) := by
+  intro p
+  have h := step_toward P ph ⟨s, t, seen⟩ hP hI hS hb
+  refine ⟨h.1, h.2.1, ?_⟩
+  intro hi
+  have hp : p = 1 := h.2.2 hi
+  refine ⟨hp, ?_⟩
+  rw [hp, predictor_fixpoint s (by omega), hi]
+
+/-- **The production period is held for ever once it is hit**: from a synchronised state outside
+back-off whose interval equals the period, every wait of the closed loop is the period. -/
+theorem closed_loop_holds_period (P ph : Int) (s : PState) (t seen : Int) (n : Nat) (hP : 0 < P)
+    (hI : PInv s) (hS : Synced P ph s t seen) (hb : s.backoff = 0) (hi : s.interval = P) :
+    closedLoop P ph n s t seen = List.replicate n P :=
+  hold_period P ph hP n ⟨s, t, seen⟩ hI hS hb hi
+
+/-- **No collapse.** Synchronised state outside back-off with the interval BELOW the period (for
+instance at `min`): after `k` polls that each find one certificate — `k·(P - interval) < P`, so
+`k ≤ 1` when the interval is at most half the period — a poll finds nothing. All these `k+1` waits
+equal the interval; then the interval strictly grows, by the new explore distance (capped at `max`),
+which is a third of the old one after a turn and doubles with every further poll without progress
+(between `min/100` and `max/2`); the loop continues from `(update s 0).2`. -/
+theorem no_collapse (P ph : Int) (s : PState) (t seen : Int) (hP : 0 < P) (hI : PInv s)
+    (hmn : 100 ≤ s.minI) (hmx : P ≤ s.maxI) (hS : Synced P ph s t seen) (hb : s.backoff = 0)
+    (hi : s.interval < P) :
+    s.interval < (update s 0).2.interval ∧
+    (update s 0).2.interval = min (s.interval + (update s 0).2.explore) s.maxI ∧
+    (update s 0).2.explore =
+      max (s.minI / 100) (min (if s.wasInc then s.explore * 2 else s.explore / 3) (s.maxI / 2)) ∧
+    ∃ k : Nat, (k : Int) * (P - s.interval) < P ∧ (2 * s.interval ≤ P → k ≤ 1) ∧
+      ∀ n, closedLoop P ph (k + 1 + n) s t seen =
+        List.replicate (k + 1) s.interval ++
+          closedLoop P ph n (update s 0).2 (t + ((k : Int) + 1) * s.interval) (seen + k) := by
+  obtain ⟨hmn0, hmm, hi1, hi2, he1, he2, _⟩ := id hI
+  obtain ⟨t0, h0, hlt, hseen, hb0, _⟩ := hS
+  have ht := hb0 hb
+  have hz := update_zero s hb (by omega)
+  have hE := upE_bounds s hI
+  have hE1 := upE_pos s hI hmn
+  refine ⟨?_, ?_, ?_, ?_⟩
+  · rw [hz]; exact clampI_gt _ _ _ _ (by omega) (by omega)
+  · rw [hz]; simp only; rw [clampI_eq _ _ _ hmm]; omega
+  · rw [hz]; exact upE_eq s hI
+  · have hanchor : t - s.interval = t0 := by omega
+    have hg := gap_bounds P ph t0 hP h0
+    have hm : s.interval - gap P ph (t - s.interval) <
+        ((s.interval.toNat + 1 : Nat) : Int) * (P - s.interval) := by
+      rw [hanchor]
+      have e : ((s.interval.toNat + 1 : Nat) : Int) = s.interval + 1 := by
+        rw [Int.natCast_succ, Int.toNat_of_nonneg (by omega)]
+      rw [e]
+      have : (s.interval + 1) * 1 ≤ (s.interval + 1) * (P - s.interval) :=
+        Int.mul_le_mul_of_nonneg_left (by omega) (by omega)
+      omega
+    obtain ⟨k, hk, _, hrun⟩ := live_up P ph hP (s.interval.toNat + 1) ⟨s, t, seen⟩ hI hb hi
+      (by simp only; omega) (by simp only; rw [hanchor]; exact hseen) hm
+    simp only at hk hrun
+    rw [hanchor] at hk
+    refine ⟨k, by omega, ?_, hrun⟩
+    intro h2
+    apply Int.ofNat_le.mp
+    apply Int.not_lt.mp
+    intro hc
+    have : (2 : Int) * (P - s.interval) ≤ (k : Int) * (P - s.interval) :=
+      Int.mul_le_mul_of_nonneg_right (by omega) (by omega)
+    omega
+
+/-- **No drift.** Synchronised state outside back-off with the interval ABOVE the period (for
+instance at `max`): after `k` polls that each find one certificate — `k·(interval - P) < P`, and
+`k = 0` when the interval is at least two periods — a poll finds `p ≥ 2` certificates. The first `k`
+waits equal the interval; then the interval strictly shrinks, the predictor stays outside back-off,
+the next wait is the new interval, and the loop continues from `(update s p).2`. -/
+theorem no_drift (P ph : Int) (s : PState) (t seen : Int) (hP : 0 < P) (hI : PInv s)
+    (hmn : 100 ≤ s.minI) (hmnP : s.minI ≤ P) (hS : Synced P ph s t seen) (hb : s.backoff = 0)
+    (hi : P < s.interval) :
+    ∃ (k : Nat) (p : Int), (k : Int) * (s.interval - P) < P ∧ (2 * P ≤ s.interval → k = 0) ∧ 2 ≤ p ∧
+      (update s p).2.interval < s.interval ∧ (update s p).1 = (update s p).2.interval ∧
+      (update s p).2.backoff = 0 ∧
+      ∀ n, closedLoop P ph (k + 1 + n) s t seen =
+        List.replicate k s.interval ++ ((update s p).1 ::
+          closedLoop P ph n (update s p).2 (t + (k : Int) * s.interval + (update s p).1) (seen + k + p)) := by
+  obtain ⟨t0, h0, hlt, hseen, hb0, _⟩ := hS
+  have ht := hb0 hb
+  have hanchor : t - s.interval = t0 := by omega
+  have hg := gap_bounds P ph t0 hP h0
+  have hm : gap P ph (t - s.interval) ≤ ((P.toNat : Nat) : Int) * (s.interval - P) := by
+    rw [hanchor, Int.toNat_of_nonneg (by omega)]
+    have : P * 1 ≤ P * (s.interval - P) := Int.mul_le_mul_of_nonneg_left (by omega) (by omega)
+    omega
+  obtain ⟨k, p, hk, hp, _, hrun⟩ := live_dn P ph hP P.toNat ⟨s, t, seen⟩ hI hb hi
+    (by simp only; omega) (by simp only; rw [hanchor]; exact hseen) hm
+  simp only at hk hrun
+  rw [hanchor] at hk
+  have hg2 := update_ge_two s p hI hb hp
+  refine ⟨k, p, by omega, ?_, hp, hg2.2.2.2.2 hmn (by omega), hg2.1, hg2.2.2.1, hrun⟩
+  intro h2
+  apply Int.ofNat_inj.mp
+  apply Int.le_antisymm _ (Int.natCast_nonneg k)
+  apply Int.not_lt.mp
+  intro hc
+  have : (1 : Int) * (s.interval - P) ≤ (k : Int) * (s.interval - P) :=
+    Int.mul_le_mul_of_nonneg_right (by omega) (by omega)
+  omega
+
+/-- **The interval always comes back to the period.** From every synchronised state (in back-off or
+not) there is a later poll with interval ≥ period and a later poll with interval ≤ period: it cannot
+stay below the period (let alone at `min`) and cannot stay above it (let alone at `max`). -/
+theorem interval_returns_to_period (P ph : Int) (s : PState) (t seen : Int) (hP : 0 < P) (hI : PInv s)
+    (hmn : 100 ≤ s.minI) (hmnP : s.minI ≤ P) (hmx : P ≤ s.maxI) (hS : Synced P ph s t seen) :
+    (∃ K : Nat, P ≤ (loopIter P ph K ⟨s, t, seen⟩).s.interval) ∧
+    (∃ K : Nat, (loopIter P ph K ⟨s, t, seen⟩).s.interval ≤ P) :=
+  straddle P ph hP ⟨s, t, seen⟩ hI hmn hmnP hmx hS
+
+/-- **The cadence neither collapses nor drifts — for all settings of `SettlesStatement`.** Along the
+run from a fresh predictor, after every poll `n` there is a later poll at which the predicted
+interval is ≥ period and a later poll at which it is ≤ period: `lim inf interval ≤ period ≤
+lim sup interval`. (Together with `closed_loop_moves_toward_period`: the interval crosses the period
+again and again, each time overshooting by less than the explore distance, or hits it and stays.) -/
+theorem cadence_straddles_period (mn ini mx period phase : Int) (n : Nat) (hmn : 100 ≤ mn) (h1 : mn ≤ ini)
+    (h2 : ini ≤ mx) (hp1 : 2 * mn ≤ period) (hp2 : 2 * period ≤ mx) (hph0 : 0 ≤ phase)
+    (hph : phase < period) :
+    (∃ K : Nat, n ≤ K ∧ period ≤ (loopIter period phase K ⟨PState.init mn ini mx, ini, 0⟩).s.interval) ∧
+    (∃ K : Nat, n ≤ K ∧ (loopIter period phase K ⟨PState.init mn ini mx, ini, 0⟩).s.interval ≤ period) := by
+  have hP : 0 < period := by omega
+  have hinv := start_iter mn ini mx period phase (by omega) h1 h2 hP (by omega) hph0 hph n
+  simp only [start] at hinv
+  have h := straddle period phase hP (loopIter period phase (n + 1) ⟨PState.init mn ini mx, ini, 0⟩)
+    hinv.1 (by rw [hinv.2.1]; exact hmn) (by rw [hinv.2.1]; omega) (by rw [hinv.2.2.1]; omega) hinv.2.2.2
+  obtain ⟨⟨K1, h1'⟩, ⟨K2, h2'⟩⟩ := h
+  refine ⟨⟨n + 1 + K1, by omega, ?_⟩, ⟨n + 1 + K2, by omega, ?_⟩⟩
+  · rw [loopIter_add]; exact h1'
+  · rw [loopIter_add]; exact h2'
+
+/-- **Near the period the band is absorbing — unless an exceptional configuration occurs.**
+`Near P s`: just after crossing the period the overshoot is below the explore distance `e ≤ P/2`; on
+the way back the remaining distance is at most `2e ≤ P/2`. `Exceptional P s`: `e ≡ 2 (mod 3)` and the
+interval exactly `e - 1` beyond the period on the side of the last move (the configuration of
+`search_overshoot_can_grow`). From a synchronised `Near` state, as long as no state of the run is
+exceptional, the run stays `Near` and every wait lies in `[P/2, 3P/2]`. -/
+theorem band_absorbing_unless_exceptional (P ph : Int) (s : PState) (t seen : Int) (n : Nat) (hP : 0 < P)
+    (hI : PInv s) (hmnP : 2 * s.minI ≤ P) (hmxP : 2 * P ≤ s.maxI) (hS : Synced P ph s t seen)
+    (hN : Near P s) (hne : ∀ j, j < n → ¬ Exceptional P (loopIter P ph j ⟨s, t, seen⟩).s) :
+    Near P (loopIter P ph n ⟨s, t, seen⟩).s ∧
+    ∀ w ∈ closedLoop P ph n s t seen, P ≤ 2 * w ∧ 2 * w ≤ 3 * P :=
+  near_iter P ph hP n ⟨s, t, seen⟩ hI hmnP hmxP hS hN hne
+
+/-- **`SettlesStatement` holds for every run that gets near the period and meets no exceptional
+configuration afterwards**: the conclusion of `SettlesStatement` with `N = k + 1`. -/
+theorem settles_unless_exceptional (mn ini mx period phase : Int) (k : Nat) (hmn : 100 ≤ mn)
+    (h1 : mn ≤ ini) (h2 : ini ≤ mx) (hp1 : 2 * mn ≤ period) (hp2 : 2 * period ≤ mx) (hph0 : 0 ≤ phase)
+    (hph : phase < period)
+    (hN : Near period (loopIter period phase (k + 1) ⟨PState.init mn ini mx, ini, 0⟩).s)
+    (hne : ∀ j, k + 1 ≤ j →
+      ¬ Exceptional period (loopIter period phase j ⟨PState.init mn ini mx, ini, 0⟩).s) :
+    ∀ n j : Nat, k + 1 ≤ j → j < n → ∀ w,
+      (closedLoop period phase n (PState.init mn ini mx) ini 0)[j]? = some w →
+      period ≤ 2 * w ∧ w ≤ 2 * period := by
+  intro n j hj hn w hw
+  have hP : 0 < period := by omega
+  have hinv := start_iter mn ini mx period phase (by omega) h1 h2 hP (by omega) hph0 hph k
+  simp only [start] at hinv
+  have hsplit := loopOf_add period phase (k + 1) (n - (k + 1)) ⟨PState.init mn ini mx, ini, 0⟩
+  have hn' : k + 1 + (n - (k + 1)) = n := by omega
+  rw [hn'] at hsplit
+  have hnear := near_iter period phase hP (n - (k + 1))
+    (loopIter period phase (k + 1) ⟨PState.init mn ini mx, ini, 0⟩) hinv.1
+    (by rw [hinv.2.1]; exact hp1) (by rw [hinv.2.2.1]; exact hp2) hinv.2.2.2 hN
+    (fun j' _ => by rw [← loopIter_add]; exact hne (k + 1 + j') (by omega))
+  have hw' : (loopOf period phase n ⟨PState.init mn ini mx, ini, 0⟩)[j]? = some w := hw
+  rw [hsplit, List.getElem?_append_right (by rw [loopOf_length]; exact hj), loopOf_length] at hw'
+  have hmem := List.mem_of_getElem? hw'
+  have := hnear.2 w hmem
+  omega
+
+/-- **`SettlesStatement` holds for every run that hits the period**: if after some `k ≥ 1` polls the
+predictor is outside back-off with interval equal to the period, every later wait IS the period. (Of
+random small settings two runs in three end this way; the others end in cycles within a few
+explore-distance floors `min/100` of the period.) -/
+theorem settles_if_period_hit (mn ini mx period phase : Int) (k : Nat) (hmn : 100 ≤ mn) (h1 : mn ≤ ini)
+    (h2 : ini ≤ mx) (hp1 : 2 * mn ≤ period) (hp2 : 2 * period ≤ mx) (hph0 : 0 ≤ phase)
+    (hph : phase < period)
+    (hb : (loopIter period phase (k + 1) ⟨PState.init mn ini mx, ini, 0⟩).s.backoff = 0)
+    (hhit : (loopIter period phase (k + 1) ⟨PState.init mn ini mx, ini, 0⟩).s.interval = period) :
+    ∀ n j : Nat, k + 1 ≤ j → j < n →
+      (closedLoop period phase n (PState.init mn ini mx) ini 0)[j]? = some period := by
+  intro n j hj hn
+  have hP : 0 < period := by omega
+  have hinv := start_iter mn ini mx period phase (by omega) h1 h2 hP (by omega) hph0 hph k
+  have hsplit := loopOf_add period phase (k + 1) (n - (k + 1)) ⟨PState.init mn ini mx, ini, 0⟩
+  have hn' : k + 1 + (n - (k + 1)) = n := by omega
+  rw [hn'] at hsplit
+  have hhold := hold_period period phase hP (n - (k + 1))
+    (loopIter period phase (k + 1) ⟨PState.init mn ini mx, ini, 0⟩) hinv.1 hinv.2.2.2 hb hhit
+  show (loopOf period phase n ⟨PState.init mn ini mx, ini, 0⟩)[j]? = some period
+  rw [hsplit, hhold, List.getElem?_append_right (by rw [loopOf_length]; exact hj), loopOf_length,
+    List.getElem?_replicate]
+  have : j - (k + 1) < n - (k + 1) := by omega
+  simp [this]
+
+/-- **A normal change of direction contracts the search.** The last adjustment overshot the period
+by less than the explore distance `e` (which `closed_loop_moves_toward_period` guarantees). Unless
+the overshoot is exactly `e - 1` with `e ≡ 2 (mod 3)`, at most two adjustments in the new direction
+bring the interval back across the period, and the explore distance is then at most
+`2·max(e/3, min/100)`. Upwards (`zeroEvent` = poll without progress followed by the poll that leaves
+back-off, see `search_overshoot_can_grow`) and downwards (polls with progress 2). -/
+theorem search_turn_contracts (s : PState) (P : Int) (hI : PInv s) (hb : s.backoff = 0)
+    (hmnP : s.minI ≤ P) (hmxP : P ≤ s.maxI)
+    (hne : ¬ ((P - s.interval = s.explore - 1 ∨ s.interval - P = s.explore - 1) ∧ s.explore % 3 = 2)) :
+    (s.wasInc = false → s.interval < P → P - s.interval < s.explore →
+      (P ≤ (zeroEvent s).interval ∧ (zeroEvent s).explore = max (s.minI / 100) (s.explore / 3)) ∨
+      ((zeroEvent s).interval < P ∧ P ≤ (zeroEvent (zeroEvent s)).interval ∧
+        (zeroEvent (zeroEvent s)).explore ≤ 2 * max (s.minI / 100) (s.explore / 3))) ∧
+    (s.wasInc = true → P < s.interval → s.interval - P < s.explore →
+      ((update s 2).2.interval ≤ P ∧ (update s 2).2.explore = max (s.minI / 100) (s.explore / 3)) ∨
+      (P < (update s 2).2.interval ∧ (update (update s 2).2 2).2.interval ≤ P ∧
+        (update (update s 2).2 2).2.explore ≤ 2 * max (s.minI / 100) (s.explore / 3))) :=
+  ⟨fun hw hi hov => turn_up s P hI hw hi hmxP hov (fun h => hne ⟨Or.inl h.1, h.2⟩),
+   fun hw hi hov => turn_dn s P hI hb hw hi hmnP hov (fun h => hne ⟨Or.inr h.1, h.2⟩)⟩
+
+/-- **…but the search is not a contraction: the exceptional change of direction.** For EVERY `u ≥ 1`
+(at least the floor `min/100`, `4u ≤ max/2`, intervals inside `[min,max]`): explore distance `3u+2`,
+overshoot `3u+1`. Upwards, three polls without progress — each followed by the poll that leaves
+back-off; after the second the interval is still 1 short of the period — move the interval by
+`u, 2u, 4u` and leave it `4u-1` ABOVE the period with explore distance `4u`. Downwards, three polls
+with progress 2 do the mirror image. Overshoot and explore distance grow by a factor ≈ 4/3, and the
+result `(overshoot 4u-1, explore 4u)` is again exceptional whenever `4u ≡ 2 (mod 3)`. Every progress
+value in these runs is the one the closed loop produces (`no_collapse`, `no_drift`). This is why no
+scale-free potential function exists for `SettlesStatement`. -/
+theorem search_overshoot_can_grow (s : PState) (P u : Int) (hu : 1 ≤ u) (h0 : 0 < s.minI)
+    (hf : s.minI / 100 ≤ u) (hc : 4 * u ≤ s.maxI / 2) (hb : s.backoff = 0) (he : s.explore = 3 * u + 2) :
+    (s.wasInc = false → s.interval = P - (3 * u + 1) → s.minI ≤ P - (3 * u + 1) →
+      P + (4 * u - 1) ≤ s.maxI →
+      runPredictor s [0, 1, 0, 1, 0, 1] =
+        ([P - (3 * u + 1), P - (2 * u + 1), P - (2 * u + 1), P - 1, P - 1, P + (4 * u - 1)],
+         { s with explore := 4 * u, interval := P + (4 * u - 1), wasInc := true })) ∧
+    (s.wasInc = true → s.interval = P + (3 * u + 1) → s.minI ≤ P - (4 * u - 1) →
+      P + (3 * u + 1) ≤ s.maxI →
+      runPredictor s [2, 2, 2] =
+        ([P + (2 * u + 1), P + 1, P - (4 * u - 1)],
+         { s with explore := 4 * u, interval := P - (4 * u - 1), wasInc := false })) := by
+  have hmx : 0 ≤ s.maxI := by omega
+  have hf' : Int.tdiv s.minI 100 ≤ u := by rw [Int.tdiv_eq_ediv_of_nonneg (by omega)]; exact hf
+  have hc' : 4 * u ≤ Int.tdiv s.maxI 2 := by rw [Int.tdiv_eq_ediv_of_nonneg hmx]; exact hc
+  exact ⟨fun hw hi hlo hhi => grow_up s P u hu hf' hc' h0 hlo hhi hb hw he hi,
+    fun hw hi hlo hhi => grow_dn s P u hu hf' hc' h0 hlo hhi hb hw he hi⟩
 
 /-! ## Non-vacuity -/
 
@@ -443,5 +810,87 @@ example : let r := round (PState.init 1000 3000 120000)
 100/3000/100000): after a short search the waits sit just below the period and stay there -/
 example : (closedLoop 1000 300 30 (PState.init 100 3000 100000) 3000 0).drop 5 = List.replicate 25 998 := by
   decide
+
+/-! ### closed loop -/
+
+/-- `producer_truthful` is not vacuous: waits of 1.7 and 2.9 periods starting at 2500 (first
+certificate at 300, period 1000) find 1 and 3 certificates -/
+example : (300 : Int) - 1000 ≤ 2500 ∧
+    produced 1000 300 (2500 + 1700) - produced 1000 300 2500 = 1 ∧
+    produced 1000 300 (2500 + 2900) - produced 1000 300 2500 = 3 := by decide
+
+/-- the start state of `SettlesStatement` is synchronised when the first certificate is not at time 0
+(anchor 0) — and it sits at three periods, so `no_drift` applies: the first poll finds 3 -/
+example : PInv (PState.init 100 3000 100000) ∧ Synced 1000 300 (PState.init 100 3000 100000) 3000 0 ∧
+    (1000 : Int) < (PState.init 100 3000 100000).interval ∧
+    closedLoop 1000 300 3 (PState.init 100 3000 100000) 3000 0 = [500, 500, 500] :=
+  ⟨by decide, ⟨0, by decide, by decide, by decide, by decide, by decide⟩, by decide, by decide⟩
+
+/-- `closed_loop_holds_period`: a synchronised state (anchor 4300) whose interval is the period -/
+example : PInv ⟨100, 100000, 0, 1, 1000, false⟩ ∧ Synced 1000 300 ⟨100, 100000, 0, 1, 1000, false⟩ 5300 5 ∧
+    closedLoop 1000 300 6 ⟨100, 100000, 0, 1, 1000, false⟩ 5300 5 = List.replicate 6 1000 :=
+  ⟨by decide, ⟨4300, by decide, by decide, by decide, by decide, by decide⟩, by decide⟩
+
+/-- `no_collapse`: interval 998 below the period 1000, anchored 10 after a certificate: five polls
+find one certificate each (`5·2 < 1000`), the sixth finds none, all six wait 998; the interval then
+grows by the doubled explore distance 60 -/
+example : PInv ⟨100, 100000, 0, 30, 998, true⟩ ∧ Synced 1000 300 ⟨100, 100000, 0, 30, 998, true⟩ 5308 5 ∧
+    closedLoop 1000 300 8 ⟨100, 100000, 0, 30, 998, true⟩ 5308 5 =
+      [998, 998, 998, 998, 998, 998, 1058, 1038] ∧
+    (update ⟨100, 100000, 0, 30, 998, true⟩ 0).2 = ⟨100, 100000, 1996, 60, 1058, true⟩ :=
+  ⟨by decide, ⟨4310, by decide, by decide, by decide, by decide, by decide⟩, by decide, by decide⟩
+
+/-- `settles_if_period_hit`: settings 100/103/1600 (start almost at the minimum), period 400, first
+certificate at 398: the search 103 → 120 → 154 → 222 → 358 → 630 → 540 → 360 → 420 → 400 recovers
+from the minimum and hits the period at poll 21, outside back-off; from then on every wait is 400 -/
+example : (loopIter 400 398 21 ⟨PState.init 100 103 1600, 103, 0⟩).s = ⟨100, 1600, 0, 20, 400, false⟩ ∧
+    closedLoop 400 398 24 (PState.init 100 103 1600) 103 0 =
+      [103, 206, 120, 120, 240, 154, 154, 222, 222, 358, 358, 358, 630, 540, 540, 360, 360, 420, 420, 420,
+       400, 400, 400, 400] := by
+  constructor
+  · decide +kernel
+  · decide
+
+/-- `search_turn_contracts`: explore distance 90, interval 50 below the period after a downward move:
+two polls without progress (steps 30, 60) bring it above, explore distance 60 = 2·(90/3) -/
+example : PInv ⟨100, 100000, 0, 90, 950, false⟩ ∧
+    zeroEvent ⟨100, 100000, 0, 90, 950, false⟩ = ⟨100, 100000, 0, 30, 980, true⟩ ∧
+    zeroEvent (zeroEvent ⟨100, 100000, 0, 90, 950, false⟩) = ⟨100, 100000, 0, 60, 1040, true⟩ := by decide
+
+/-- `band_absorbing_unless_exceptional`: the synchronised state of the `no_collapse` example (interval 2
+short of the period 1000, explore distance 30, moving up) is `Near`, and none of the next 8 states is
+exceptional; the waits 998 … 1058, 1038 are indeed within [500, 1500] -/
+example : Near 1000 ⟨100, 100000, 0, 30, 998, true⟩ ∧
+    (∀ j, j < 8 → ¬ Exceptional 1000 (loopIter 1000 300 j ⟨⟨100, 100000, 0, 30, 998, true⟩, 5308, 5⟩).s) := by
+  refine ⟨by decide, by decide +kernel⟩
+
+/-- `settles_unless_exceptional`: the run 100/103/1600 (period 400, first certificate at 398) is `Near`
+after 18 polls (interval 420, explore distance 60) and after 21 polls (interval = period), and from
+poll 21 on no state is exceptional — the predictor no longer moves (`closed_loop_holds_period`), and
+a state whose interval is the period is exceptional only for explore distance 1 -/
+example : (loopIter 400 398 18 ⟨PState.init 100 103 1600, 103, 0⟩).s = ⟨100, 1600, 0, 60, 420, true⟩ ∧
+    Near 400 ⟨100, 1600, 0, 60, 420, true⟩ ∧
+    Near 400 (loopIter 400 398 21 ⟨PState.init 100 103 1600, 103, 0⟩).s ∧
+    (∀ j, 21 ≤ j → ¬ Exceptional 400 (loopIter 400 398 j ⟨PState.init 100 103 1600, 103, 0⟩).s) := by
+  have h21 : (loopIter 400 398 21 ⟨PState.init 100 103 1600, 103, 0⟩).s = ⟨100, 1600, 0, 20, 400, false⟩ := by
+    decide +kernel
+  refine ⟨by decide +kernel, by decide, by rw [h21]; decide, ?_⟩
+  intro j hj
+  have hinv := start_iter 100 103 1600 400 398 (by decide) (by decide) (by decide) (by decide) (by decide)
+    (by decide) (by decide) 20
+  simp only [start] at hinv
+  have hst := hold_period_state 400 398 (by decide) (j - 21)
+    (loopIter 400 398 21 ⟨PState.init 100 103 1600, 103, 0⟩) hinv.1 hinv.2.2.2 (by rw [h21]) (by rw [h21])
+  have hj' : j = 21 + (j - 21) := by omega
+  rw [hj', loopIter_add, hst, h21]
+  decide
+
+/-- `search_overshoot_can_grow` with `u = 29`, period 400, settings 100/·/1000 — and the chain it
+starts: explore distance 89 → 116 → 152 → 200 → 264, overshoot 88 → 115 → 151 → 199 → 263; the
+interval leaves the band [200, 800] four turns after sitting at 312 -/
+example : runPredictor ⟨100, 1000, 0, 89, 312, false⟩
+      [0, 1, 0, 1, 0, 1, 2, 2, 2, 0, 1, 0, 1, 0, 1, 2, 2, 2] =
+    ([312, 341, 341, 399, 399, 515, 477, 401, 249, 249, 299, 299, 399, 399, 599, 533, 401, 137],
+     ⟨100, 1000, 0, 264, 137, false⟩) := by decide
 
 end F3.Props.C20
